@@ -277,8 +277,8 @@ def run_ints(ctx, facts, config, lens_fn, classes, places):
     cases, meta = [], []
     for idx, e in rows:
         L = exprun.lanes(e)
-        for n in lens_fn(L):
-            for cls in classes:
+        for n, guided in exprun.lens_for(e, lens_fn):
+            for cls in (classes[:2] if guided else classes):
                 if n == 0 and cls != "zero_both":
                     continue
                 a, b = int_pair(g, e["ty"], n, cls)
@@ -340,8 +340,8 @@ def run_floats(ctx, facts, config, lens_fn, classes, places):
     cases, meta = [], []
     for idx, e in rows:
         L = exprun.lanes(e)
-        for n in lens_fn(L):
-            for cls in classes:
+        for n, guided in exprun.lens_for(e, lens_fn):
+            for cls in (classes[:2] if guided else classes):
                 if n == 0 and cls != "zero_both":
                     continue
                 a, b = float_pair(g, e["ty"], n, cls)
